@@ -7,7 +7,10 @@ import (
 	"k8s.io/apiserver/pkg/authentication/user"
 	"k8s.io/apiserver/pkg/authorization/authorizer"
 
+	"k8s.io/apimachinery/pkg/util/validation/field"
+
 	proxyv1alpha1 "github.com/kubewharf/kubegateway/pkg/apis/proxy/v1alpha1"
+	"github.com/kubewharf/kubegateway/pkg/apis/proxy/v1alpha1/validation"
 	"github.com/kubewharf/kubegateway/pkg/clusters"
 	"github.com/kubewharf/kubegateway/pkg/flowcontrols/flowcontrol"
 
@@ -189,4 +192,17 @@ func b2i(b bool) int {
 		return 1
 	}
 	return 0
+}
+
+// negativeLimitRefusedByValidation observes (does not assume) that a negative max - which the limiter would turn into
+// uint32(-1) = 4294967295 - cannot be stored.
+func negativeLimitRefusedByValidation(r *vkit.R) {
+	for _, m := range []int32{-1, -2147483648} {
+		fc := &proxyv1alpha1.FlowControl{Schemas: []proxyv1alpha1.FlowControlSchema{mifSchema(hot, m)}}
+		if _, errs := validation.ValidateFlowControl(fc, field.NewPath("spec")); len(errs) > 0 {
+			r.Count("negative_limits_refused_by_validation", 1)
+		} else {
+			r.Count("negative_limits_ACCEPTED_by_validation", 1)
+		}
+	}
 }
